@@ -72,6 +72,23 @@ void * realloc(void * ptr, size_t size)
 
 #include "hash.c"
 
+/* CBMC's built-in pointer / bounds / arithmetic checks stay enabled in everything above (the
+ * library code under test and the realloc model).  They are switched off for the specification
+ * code below, which accounts for nearly all symbolic-execution steps (measured: 27 s -> 5 s for
+ * two scenarios): the checkers identify a node or element by comparing its address with the
+ * pool addresses BEFORE they dereference it, so a stray pointer produced by the library shows up
+ * as a failed VF_ASSERT ("every chain node is an inserted element") instead. */
+#ifndef VF_NATIVE
+#pragma CPROVER check disable "pointer"
+#pragma CPROVER check disable "pointer-primitive"
+#pragma CPROVER check disable "pointer-overflow"
+#pragma CPROVER check disable "bounds"
+#pragma CPROVER check disable "signed-overflow"
+#pragma CPROVER check disable "conversion"
+#pragma CPROVER check disable "div-by-zero"
+#pragma CPROVER check disable "undefined-shift"
+#endif
+
 /* ------------------------------------------------------------------ pool, model, hash functions */
 struct vf_el { int id; struct cstl_hash_node hn; int poisoned; };
 #define VF_POOL 6
@@ -335,12 +352,20 @@ static const struct vf_pat vf_pats[] = {
     { 3, { 0, 1, 2, 0 } }, { 4, { 0, 1, 2, 3 } }, { 4, { 3, 1, 1, 0 } },
 };
 #define VF_NPATS ((int)(sizeof(vf_pats) / sizeof(vf_pats[0])))
+#ifndef VF_MLO
+#define VF_MLO 1
+#define VF_MHI 3
+#endif
+#ifndef VF_PLO
+#define VF_PLO 0
+#define VF_PHI (VF_NPATS - 1)
+#endif
 void h_b_basic(void)
 {
     size_t mm;
     int pi, j;
-    for (mm = 1; mm <= 3; mm++) {
-        for (pi = 0; pi < VF_NPATS; pi++) {
+    for (mm = VF_MLO; mm <= VF_MHI; mm++) {
+        for (pi = VF_PLO; pi <= VF_PHI; pi++) {
             const struct vf_pat * const pt = &vf_pats[pi];
             struct cstl_hash h; struct vf_model m;
             vf_reset(&h, &m);
@@ -383,7 +408,7 @@ void h_b_basic(void)
                 vf_check(&h, &m, 4);
             }
             cstl_hash_clear(&h, NULL);
-            VF_REACH(mm == 3 && pi == VF_NPATS - 1, "largest table and longest key pattern exercised");
+            VF_REACH(mm == VF_MHI && pi == VF_PHI, "largest table and longest key pattern exercised");
         }
     }
     VF_END();
